@@ -41,6 +41,17 @@ POOL = [
 ]  # fmt: skip
 
 
+TEMPLATES = ["int v = %s ;", "void f ( void ) { x = %s ; }", "int a [ %s ] ;", "void f ( void ) { return %s ; }", "typedef int T0 ; int w = sizeof %s ;"]
+_TN = ("tn", [("t", "int")], [])
+_TNS = ("tn", [("su", "struct", "S", [("decl", [("t", "int")], [("d", "a", [], None, None, None)]), ("decl", [("t", "int")], [("d", "b", [], None, None, None)])])], [])
+HOLES = [
+    ("const", "1", "int"), ("id", "y"), ("cast", _TN, ("id", "y")), ("cl", _TN, ("il", [([], ("ie", ("const", "1", "int")))], False)),
+    ("mem", ("cl", _TNS, ("il", [([], ("ie", ("const", "1", "int"))), ([], ("ie", ("const", "2", "int")))], False)), ".", "a"),
+    ("sizeoft", _TN), ("pre", "sizeof", ("cl", _TN, ("il", [([], ("ie", ("id", "y")))], False))), ("bin", "+", ("id", "y"), ("const", "1", "int")),
+    ("cast", ("tn", [("t", "long")], [("arr", [], None, ("const", "5", "int"))]), ("id", "z")), ("call", ("id", "g"), [("id", "y")]),
+]
+
+
 def ids_of(n, acc):
     if isinstance(n, c_ast.Node):
         acc.add(id(n))
@@ -181,6 +192,21 @@ class Machine(RuleBasedStateMachine):
         if c.chance(0.2):
             text = text.rstrip("\n")
         self.do_parse(text, fname, "truncated")
+
+    @rule(data=st.data(), t=st.integers(0, len(TEMPLATES) - 1))
+    def parse_template(self, data, t):
+        """the same template with different hole contents: successive texts agree
+        token for token (index, line, column) up to the hole - the situation in
+        which anything remembered by position from an earlier parse would be hit"""
+        c = Chooser(data)
+        g = gen.G(c, quarantine=QUARANTINE, max_nodes=25)
+        if c.chance(0.5):
+            e = gen.gen_expr(g, c.int(0, 3))
+        else:
+            e = c.choice(HOLES)
+        r = M.Renderer(c.choice(["min", "full"]))
+        r.E(M.freshen(e), M.L_ASG)
+        self.do_parse(TEMPLATES[t] % " ".join(tk.s for tk in r.toks), "t.c", "template")
 
     @rule(i=st.integers(0, len(POOL) - 1), fname=st.sampled_from(["", "a.c", "b/c.h"]))
     def parse_pool(self, i, fname):
